@@ -284,6 +284,26 @@ def main(argv):
             print(f"  {d['status']:9s} {d['mutant']}: {d['obligation_or_reason'][:200]}")
         print(f"selftest {argv[1]}: {st['summary']['killed']}/{st['summary']['mutants']} mutants killed")
         return 0 if not st["problems"] else 2
+    if len(argv) >= 1 and argv[0] == "--all-units":
+        rc = 0
+        with cf.ThreadPoolExecutor(max_workers=8) as ex:
+            futs = {ex.submit(_safe_verify, u): u for u in all_units()}
+            for fu in cf.as_completed(futs):
+                u = futs[fu]
+                r, exc = fu.result()
+                if exc:
+                    print(f"{u:20s} UNDECIDED {exc}")
+                    rc = 2
+                else:
+                    st = "ok" if not r.failures and not r.undecided else "FAIL"
+                    print(f"{u:20s} {st} verified={r.verified} errors={r.errors} fns={len(r.functions)} smt={r.smt_ms}ms canaries={r.canaries_failed_as_required}/{r.canaries_total}")
+                    for f in r.failures:
+                        print("     FAIL", f.obligation[:200])
+                    for x in r.undecided:
+                        print("     UNDECIDED", x[:300])
+                    if st != "ok":
+                        rc = 1
+        return rc
     if len(argv) >= 1 and argv[0] == "--clean":
         rmtree(SCRATCH_ROOT)
         rmtree(BUILD)
